@@ -41,6 +41,13 @@ def kv (canon key : String) : Option String :=
     | [k, v] => if k == key then some v else none
     | _ => none
 
+/-- Bytes per arrived input byte. The discovery handler decodes the packet (the harness hands it to the IPv4
+and the IPv6 entry and decodes it once more for its own expectation) and constructs one convergence-layer
+client per announcement of ≈ 9 wire bytes: a constant per announcement that has arrived, ≈ 800 B per byte
+measured on honest packets. -/
+def kOf (dec : String) : Nat :=
+  if dec == "announce-handler" then 4 * measK else measK
+
 def extraC (dec canon : String) : Nat :=
   if dec.startsWith "bbc" then xzPerStream * (((kv canon "ends").bind (·.toNat?)).getD 1).max 1 else 0
 
@@ -117,7 +124,7 @@ def handle (line : String) : String :=
       else if outcome == "oom" then s!"specfail alloc-unbounded-{dec} fatal-out-of-memory len={bs.length}"
       else if outcome != "value" && outcome != "error" then "skip outcome"
       else if dec == "mru" || dec == "sendmtu" then judgeMru dec bs alloc canon
-      else if alloc > measC + extraC dec canon + measK * bs.length then
+      else if alloc > measC + extraC dec canon + kOf dec * bs.length then
         s!"specfail alloc-unbounded-{dec} alloc={alloc} len={bs.length}"
       else
         match model dec bs with
